@@ -9,6 +9,11 @@ CLAIMED = {
   technique="deterministic simulation with fault injection: the real jaq binary under a ptrace OS simulator; kill-point and errno sweeps over the fault-free --in-place trace, end-state invariants",
   text="Per generated world (1-3 input files, modes, decoys, filters that succeed/fail at value k, parse errors at value k) the fault-free -i trace defines a finite fault space (kill before every counted syscall, torn writes, every errno of each call's menu, EINTR/short I/O, a mount boundary that makes cross-directory renames fail). Thorough sweeps that space completely per world, quick samples it. After every run the file system is compared with the only allowed states (original bytes / complete output of the same invocation without -i, prefix order over files, modes, no left-overs, bystanders untouched). This is enumeration of crash points and failures, which is what the property quantifies over; it is evidence over the sampled worlds, not a proof over all programs.",
   note="Trusted: kernel, libc, the ptrace tracer, and the binary's own non-in-place output as definition of 'complete output' (the statement's own definition). A killed process is modelled, not power loss."),
+ "C06": dict(
+  level="exploration", design="§3 C06", engine="simos",
+  technique="deterministic simulation: the real jaq binary in a simulated world with honeypot files, complete system-call history checked against an access policy; the set of filters is discovered from the tree at run time; injected faults make the time-zone database unreadable",
+  text="Every run is one process of the real binary under the ptrace simulator, which logs every system call (raw ones included), denies network/process/kernel calls, and compares the file tree before and after. Workload: every filter the tree defines (library natives, natives found in jaq/src except repl, all jq-coded definitions - discovered at run time, so a new built-in is exercised without touching the harness) called with path-, URL- and command-like strings and hostile documents as input and arguments; every decoder on hostile XML/YAML/CBOR/TOML/CSV/JSON documents via files, stdin and from*/to* filters; module and data imports (so allowed reads are exercised) and --in-place (documented exception). Policy: no forbidden call, no mutation outside the -i exception, no access of any kind to a path that occurs only in data or arguments, no open/stat of a path the invocation does not name (start-up set measured, time-zone database read-only), unchanged tree. Sampling of filters x arguments x documents: evidence, not proof.",
+  note="Trusted: kernel, ptrace tracer, the policy (c06.rs). Effects needing no system call are invisible (none known); vDSO clock reads are not observable and are not file/network/process access. `repl` excluded by name."),
  "C16": dict(
   level="exploration", design="§3 C16", engine="simos",
   technique="deterministic simulation with fault injection: the real jaq binary in a simulated file tree and environment (HOME, $ORIGIN, cwd, -L lists) with copies of every module planted in seeded subsets of the candidate directories; open/stat/read failures injected on the best-ranked candidate; loaded copy compared with a candidate-order model",
@@ -40,7 +45,6 @@ NA = {
 PENDING = {
  "C03": "claimed by DESIGN.md (trace refinement over simlib + stdin stall in simos); check not yet implemented in this commit",
  "C05": "claimed by DESIGN.md for the stream-facing surface only; check not yet implemented in this commit",
- "C06": "claimed by DESIGN.md (syscall policy monitor in simos); check not yet implemented in this commit",
  "C19": "claimed by DESIGN.md (shuttle schedules + static Send/Sync); check not yet implemented in this commit",
 }
 
